@@ -119,7 +119,8 @@ class C05(Profile):
     probes = ['fudge_branch_2.0', 'fudge_branch_2.1', 'no_fudge_needed', 'clock_before_old', 'dict_chain_len>=3',
               'explicit_modified_sub_ms', 'sco_locked_refused', 'revoked_refused', 'reserialised_head',
               'none_removed_property', 'chain_len>=5', 'granular_marking_as_version_minter', 'remove_custom_stix',
-              'unmodifiable_removal_refused', 'custom_registered_type_chain', 'same_name_registered_as_2.1_observable']
+              'unmodifiable_removal_refused', 'custom_registered_type_chain', 'same_name_registered_as_2.1_observable',
+              'unmodifiable_names_inside_custom_properties']
     rule = ('plans are generated from run_seed (1-4 chains over every versionable type of both spec versions in object / '
             'dict / unregistered-dict / SCO forms, 10-60 versioning ops each with a steered clock reading); a run is '
             'non-trivial when >=1 op produced a new version AND >=1 oracle comparison ran on it; distinct = distinct plan digests')
@@ -189,6 +190,10 @@ class C05(Profile):
                 op['changes'] = _changes(rng, ch)
                 op['allow_custom'] = rng.choice([None, None, True])
                 op['reser'] = rng.random() < 0.15
+                if rng.random() < 0.08:
+                    # part of the request travels in the constructors' documented custom_properties argument, and names
+                    # properties that no request may change
+                    op['cp_rider'] = rng.sample(['created_by_ref', 'created', 'modified', 'id', 'type'], rng.randrange(1, 4))
             elif kind == 'mark':
                 op['fn'] = rng.choice(['add', 'add', 'remove', 'set', 'clear', 'gadd', 'gadd', 'gclear', 'gset', 'gremove'])
                 op['marking'] = rng.sample(C.MARKING_IDS, rng.randrange(1, 3))
@@ -338,6 +343,18 @@ class C05(Profile):
                 expect = 'refused'
             if is_obj and op.get('allow_custom') is False and head_custom:
                 expect = 'either'
+            if op.get('cp_rider') and is_obj and expect == 'ok':
+                earlier = tsparse.fmt(tsparse.trunc_ms(old_us) - 5000000, digits=3)
+                rider = {'x_rank': 2}
+                for name in op['cp_rider']:
+                    rider[name] = {'created_by_ref': C.IDENT2 if hjson.get('created_by_ref') != C.IDENT2 else C.IDENT, 'created': earlier,
+                                   'modified': earlier, 'id': C.mkid(hjson['type'], ch['id_n'] + 555555), 'type': 'x-other-type'}[name]
+                kwargs = dict(kwargs, custom_properties=rider)
+                # refusing is fine, ignoring the rider is fine; honouring it is not - the identity and strictly-newer oracles below decide.
+                # What exactly becomes of the legal part of such a request is not compared.
+                expect = 'either'
+                changes = None
+                world.probe('unmodifiable_names_inside_custom_properties')
             fn = (lambda: head.new_version(**kwargs)) if (op['via'] == 'method' and is_obj) else (lambda: V.new_version(head, **kwargs))
         elif kind == 'revoke':
             fn = (lambda: head.revoke()) if (op['via'] == 'method' and is_obj) else (lambda: V.revoke(head))
